@@ -25,6 +25,9 @@ def run(ctx):
     ctx.prove('props/C06.v')
     L.lockstep(ctx, [L.mon_c06])
     L.nested_sweep(ctx, ('outcome', 'panic'))
+    if ctx.tier == 'thorough':
+        ctx.harness(['p_nested2'])
+        L.nested2_sweep(ctx, ('outcome', 'panic'))
     L.histories(ctx, 500 if ctx.tier == 'quick' else 5000)
     ctx.coverage['rule_nested'] = ('instruction-level sweep (trap flag): send/recv interrupted after every instruction by a handler running '
                                    'send/recv to completion, fill 0-5; outcomes (returns, drained values, drop counts, panic, hang) against the '
